@@ -122,7 +122,7 @@ def run_property(pid, tier):
             if not ok:
                 for e in errors:
                     broken.append({"kind": "model-build", "detail": "%s line %s: %s" % (e["file"], e["line"], e["message"][:600])})
-    bad = coqrun.hygiene()
+    bad = coqrun.hygiene(prop_files, getattr(mod, "CASE_DEPS", []))
     for b in bad:
         broken.append({"kind": "hygiene", "detail": b})
 
